@@ -64,6 +64,85 @@ func finitePt(p s2.Point) bool {
 	return !math.IsNaN(p.X+p.Y+p.Z) && !math.IsInf(p.X+p.Y+p.Z, 0)
 }
 
+// ---- discriminating conditions of the two recorded cap defects ------------------------------
+
+// capUnionKnownNaN: the recorded Cap.Union defect and nothing else. The result has a NaN centre,
+// the two centres are within ~1e-7 of antipodal, and the tangent InterpolateAtDistance builds from
+// PointCross is non-zero but has a squared norm that underflows to 0 (so sin/norm = Inf).
+func capUnionKnownNaN(a, b, u s2.Cap) bool {
+	uc, _ := s2.VerifC19CapFields(u)
+	if !math.IsNaN(uc.X) && !math.IsNaN(uc.Y) && !math.IsNaN(uc.Z) {
+		return false
+	}
+	ac, _ := s2.VerifC19CapFields(a)
+	bc, _ := s2.VerifC19CapFields(b)
+	if s := ac.Add(bc.Vector); s.Norm2() > 1e-14 {
+		return false
+	}
+	for _, o := range [][2]s2.Point{{ac, bc}, {bc, ac}} {
+		t := o[0].PointCross(o[1]).Cross(o[0].Vector)
+		if t != (r3.Vector{}) && t.Norm2() == 0 {
+			return true
+		}
+	}
+	return false
+}
+
+func capUnionValidKind(a, b, u s2.Cap) string {
+	if capUnionKnownNaN(a, b, u) {
+		return "cap.Union.valid"
+	}
+	return "cap.Union.invalid-result"
+}
+
+// capInteriorKnownClamp: the recorded InteriorIntersects defect and nothing else: the answer is
+// false, the centres are at squared chord distance exactly 4 and the radius sum is clamped to 4.
+func capInteriorKnownClamp(x, y s2.Cap) bool {
+	xc, xr := s2.VerifC19CapFields(x)
+	yc, yr := s2.VerifC19CapFields(y)
+	return xr > 0 && yr >= 0 && float64(s2.ChordAngleBetweenPoints(xc, yc)) == 4 &&
+		float64(s1.ChordAngle(xr).Add(s1.ChordAngle(yr))) == 4
+}
+
+var knownClampReports int
+
+// reportInterior: x.InteriorIntersects(y) answered false although want is true
+func capInteriorKind(x, y s2.Cap, plain string) (kind string, report bool) {
+	if capInteriorKnownClamp(x, y) {
+		knownClampReports++
+		return "cap.InteriorIntersects.antipodal-clamp", knownClampReports <= 2
+	}
+	return plain, true
+}
+
+// independent evaluation of the rounded squared chord (same specification as ChordAngleBetweenPoints)
+func myChord2(x, y s2.Point) float64 {
+	dx, dy, dz := x.X-y.X, x.Y-y.Y, x.Z-y.Z
+	return math.Min(4, dx*dx+dy*dy+dz*dz)
+}
+
+// documented measurement error of a ChordAngle for an angle theta (s1/chordangle.go):
+// min(1e-15 / tan((pi - theta)/2), sqrt(2e-15)); it grows to 4.5e-8 rad near pi
+func chordTol(theta float64) float64 {
+	x := math.Pi - theta
+	if x <= 0 {
+		return math.Sqrt(2e-15)
+	}
+	return math.Min(1e-15/math.Tan(x/2), math.Sqrt(2e-15))
+}
+
+// slack of the angle criterion "separation vs sum of radii": the distance and the clamped sum are
+// both ChordAngles and carry the documented error near pi
+func capAngleTol(sep, sum float64) float64 {
+	return 1e-9 + 2*chordTol(sep) + 2*chordTol(math.Min(sum, math.Pi))
+}
+
+func capAngle(r2 float64) float64 { return 2 * math.Asin(math.Min(1, math.Sqrt(r2)/2)) }
+func centreAngle(x, y s2.Point) float64 {
+	cr := x.Cross(y.Vector)
+	return math.Atan2(cr.Norm(), x.Dot(y.Vector))
+}
+
 // probes: centre, antipode, and points at (approximately) the boundary and just inside/outside
 func capProbes(randPt func() s2.Point, cp s2.Cap) []s2.Point {
 	ctr, r := s2.VerifC19CapFields(cp)
@@ -137,7 +216,7 @@ func runC19cap(c *vkit.Collector, rng *vkit.Rng, budget int) {
 		c.Check("cap.Union(regression)", vkit.App("s2_Cap_eqbits", vkit.App("s2_Cap_Union", capTerm(a), capTerm(b)), capTerm(u)))
 		if capValidO(a) && capValidO(b) && !capValidO(u) {
 			uc, ur := s2.VerifC19CapFields(u)
-			c.Violate("cap.Union.valid", "Union of two valid caps is not a valid cap (NaN centre)", map[string]interface{}{"type": "s2.Cap",
+			c.Violate(capUnionValidKind(a, b, u), "Union of two valid caps is not a valid cap (NaN centre)", map[string]interface{}{"type": "s2.Cap",
 				"a": capKey(a), "b": capKey(b), "union_center": fs(uc.X, uc.Y, uc.Z), "union_radius2": fs(ur),
 				"go": "a := CapFromCenterChordAngle(Point{r3.Vector{-1.0000000000000007, 0, -5e-324}}, 2.0000000000000004); b := CapFromCenterChordAngle(Point{r3.Vector{1.0000000000000013, 0, 0}}, 1); a.Union(b).IsValid() == false"})
 		}
@@ -206,7 +285,11 @@ func runC19cap(c *vkit.Collector, rng *vkit.Rng, budget int) {
 		// [S] results valid
 		for name, r := range map[string]s2.Cap{"Union": un, "AddCap": ad, "Complement": cm, "Expanded": ex} {
 			if !capValidO(r) {
-				c.Violate("cap."+name+".valid", "result is not a valid cap", rep(ac))
+				kind := "cap." + name + ".invalid-result"
+				if name == "Union" {
+					kind = capUnionValidKind(a, b, r)
+				}
+				c.Violate(kind, "result is not a valid cap", rep(ac))
 			}
 		}
 		// exact cases of Contains: same centre, radius not larger (Add(0, r) = r exactly)
@@ -219,6 +302,45 @@ func runC19cap(c *vkit.Collector, rng *vkit.Rng, budget int) {
 			}
 			if !a.Intersects(a) {
 				c.Violate("cap.Intersects.reflexive", "a valid non-empty cap does not intersect itself", rep(ac))
+			}
+		}
+		// Intersects / InteriorIntersects against the angle criterion (float64 trigonometry; slack 1e-9 rad plus
+		// the documented ChordAngle error, which reaches 4.5e-8 rad for angles near pi)
+		overlapClear := true
+		if ar >= 0 && br >= 0 && ar <= 4 && br <= 4 {
+			sep, sum := centreAngle(ac, bc), capAngle(ar)+capAngle(br)
+			tol := capAngleTol(sep, sum)
+			overlapClear = sep+tol < sum
+			ii := a.InteriorIntersects(b)
+			switch {
+			case ii && (ar <= 0 || sep > sum+tol):
+				c.Violate("cap.InteriorIntersects.true-but-disjoint", "InteriorIntersects true although the receiver has no interior or the caps are clearly disjoint", rep(ac))
+			case !ii && ar > 0 && overlapClear:
+				if kind, report := capInteriorKind(a, b, "cap.InteriorIntersects.false-but-overlapping"); report {
+					c.Violate(kind, "InteriorIntersects false although the caps clearly overlap", rep(ac))
+				}
+			}
+			if a.Intersects(b) && sep > sum+tol {
+				c.Violate("cap.Intersects.true-but-disjoint", "Intersects true although the caps are clearly disjoint", rep(ac))
+			}
+			if !a.Intersects(b) && overlapClear {
+				c.Violate("cap.Intersects.false-but-overlapping", "Intersects false although the caps clearly overlap", rep(ac))
+			}
+		}
+		// a point cap touching the boundary exactly: it meets the cap but not its interior
+		if ar >= 0 {
+			q := randPt()
+			d := myChord2(ac, q)
+			touch := s2.VerifC19CapRaw(ac, d)
+			pc := s2.CapFromPoint(q)
+			if d > 0 && touch.InteriorIntersects(pc) {
+				c.Violate("cap.InteriorIntersects.boundary-point", "the interior of a cap meets a point cap that lies exactly on its boundary", rep(q))
+			}
+			if !touch.Intersects(pc) {
+				c.Violate("cap.Intersects.boundary-point", "a cap does not intersect a point cap that lies exactly on its boundary", rep(q))
+			}
+			if d > 0 && d < 4 && !s2.VerifC19CapRaw(ac, vkit.Ulps(d, 1)).InteriorIntersects(pc) {
+				c.Violate("cap.InteriorIntersects.inside-point", "the interior of a cap misses a point cap one ulp inside its boundary", rep(q))
 			}
 		}
 		probes := append(around(a), around(b)...)
@@ -243,7 +365,7 @@ func runC19cap(c *vkit.Collector, rng *vkit.Rng, budget int) {
 			if contains && inB && !capMemExact(ac, ar, p, 2*capEps) {
 				c.Violate("cap.Contains", "Contains true but a point of the other cap is clearly outside", rep(p))
 			}
-			if !intersects && inA && inB && capMemExact(ac, ar-2*capEps, p, 0) && capMemExact(bc, br-2*capEps, p, 0) {
+			if !intersects && overlapClear && inA && inB && capMemExact(ac, ar-2*capEps, p, 0) && capMemExact(bc, br-2*capEps, p, 0) {
 				c.Violate("cap.Intersects", "Intersects false but a point lies clearly inside both caps", rep(p))
 			}
 			if (inA || inB) && !capMemExact(uc, ur, p, 2*capEps) {
@@ -320,8 +442,6 @@ func runC19cap(c *vkit.Collector, rng *vkit.Rng, budget int) {
 //	x.Intersects(full) is true for non-empty x,
 //	Union / AddCap with an empty operand is the other operand as a point set, with a full one full,
 //	Expanded(empty) is empty, Complement(empty) is full, Complement(full) is empty.
-var knownClampReports int
-
 func runC19capSpecial(c *vkit.Collector, rng *vkit.Rng, budget int) {
 	unit := func(x, y, z float64) s2.Point { return s2.Point{Vector: r3.Vector{X: x, Y: y, Z: z}.Normalize()} }
 	randPt := func() s2.Point { return unit(rng.Range(-1, 1), rng.Range(-1, 1), rng.Range(-1, 1)) }
@@ -439,16 +559,15 @@ func runC19capSpecial(c *vkit.Collector, rng *vkit.Rng, budget int) {
 						viol("cap.Intersects.full-operand", "a non-empty cap does not intersect a full cap")
 					}
 					if !isEmptyO(a) && !b.InteriorIntersects(a) {
-						// known: radius sums are clamped to 4, and 4 > 4 is false for exactly antipodal centres
-						kind := "cap.InteriorIntersects.full-receiver"
-						if float64(s2.ChordAngleBetweenPoints(ac, bc)) == 4 {
-							kind = "cap.InteriorIntersects.antipodal-clamp"
-							knownClampReports++
+						// known only for chord distance exactly 4 with the radius sum clamped to 4
+						if kind, report := capInteriorKind(b, a, "cap.InteriorIntersects.full-receiver"); report {
+							viol(kind, "the interior of a full cap does not intersect a non-empty cap")
 						}
-						if kind == "cap.InteriorIntersects.antipodal-clamp" && knownClampReports > 2 {
-							continue // the known finding must not crowd out other kinds (the collector keeps 20)
+					}
+					if _, ar0 := s2.VerifC19CapFields(a); ar0 > 0 && !a.InteriorIntersects(b) {
+						if kind, report := capInteriorKind(a, b, "cap.InteriorIntersects.full-arg"); report {
+							viol(kind, "the interior of a cap with positive radius does not intersect a full cap")
 						}
-						viol(kind, "the interior of a full cap does not intersect a non-empty cap")
 					}
 					for name, u := range map[string]s2.Cap{"Union": a.Union(b), "Union'": b.Union(a), "AddCap": a.AddCap(b), "AddCap'": b.AddCap(a)} {
 						_, ur := s2.VerifC19CapFields(u)
